@@ -254,8 +254,13 @@ MODES = ["exit1_silent", "exit1_fail", "signal", "signal_after_ok", "empty", "ok
 POSITIONS = {"first": {"0": None}, "second": {"1": None}, "every": {"*": None}}
 
 
+def ctx_work():
+    import core
+    return core.WORK + "/C20"
+
+
 def _with_faults(mode, pos, f, only_cmd=None):
-    cpath = "%s/C20/counter" % "/verif/.work"
+    cpath = "%s/counter" % ctx_work()
     os.makedirs(os.path.dirname(cpath), exist_ok=True)
     with open(cpath, "w") as fh:
         fh.write("0")
@@ -423,7 +428,7 @@ def unit_e2e(ctx):
                         ctx.oracle_fail("e2e-real:%s:%s" % (sname, mode), "%s accepted with the real-process tool failing (%s)" % (sname, mode),
                                         {"unit": "e2e-real", "site": sname, "mode": mode, "pos": "every"})
             # binary that cannot be started
-            nox = "/verif/.work/C20/not-executable"
+            nox = ctx_work() + "/not-executable"
             with open(nox, "w") as fh:
                 fh.write("#!/bin/false\n")
             os.chmod(nox, 0o644)
